@@ -173,3 +173,34 @@ def lemma_mul_le_r(a, b, p):
 
 
 HINT_LEMMAS += [lemma_mul_lt_r, lemma_mul_le_r]
+
+
+def lemma_bitlen_2x1(q):
+    """q >= 1 -> bitlen(2q+1) == bitlen(q)+1 and bitlen(2q) == bitlen(q)+1"""
+    return implies(q >= 1, bitlen(2 * q + 1) == bitlen(q) + 1 and bitlen(2 * q) == bitlen(q) + 1)
+
+
+def lemma_mul_assoc3(a, b, c):
+    """(a*b)*c == a*(b*c) -- names the product terms for the solver"""
+    return (a * b) * c == a * (b * c)
+
+
+HINT_LEMMAS += [lemma_bitlen_2x1, lemma_mul_assoc3]
+
+
+def lemma_mul_cancel_eq(a, b, p):
+    """p > 0, a*p == b*p -> a == b"""
+    return implies(p > 0 and a * p == b * p, a == b)
+
+
+def lemma_mul_distrib(a, b, p):
+    """(a + b)*p == a*p + b*p"""
+    return (a + b) * p == a * p + b * p
+
+
+def lemma_bitlen_ge(x, k):
+    """x >= 2**k (k >= 0) -> bitlen(x) >= k+1"""
+    return implies(k >= 0 and x >= pow2(k), bitlen(x) >= k + 1)
+
+
+HINT_LEMMAS += [lemma_mul_cancel_eq, lemma_mul_distrib, lemma_bitlen_ge]
